@@ -119,7 +119,18 @@ pub enum StrErr {
     Truncated,
     /// length does not fit the implementation (we use: > 2^62)
     LenTooBig,
-    Huffman,
+    /// invalid Huffman payload, with the reason from `huffman::classify`
+    Huffman(&'static str),
+}
+
+pub fn huffman_invalid_reason(payload: &[u8]) -> &'static str {
+    match huffman::classify(payload) {
+        huffman::Validity::Valid(_) => "classifier-disagrees",
+        huffman::Validity::OverlongPadding(_) => "padding-longer-than-7-bits",
+        huffman::Validity::Eos { at_end: true } => "EOS-symbol-at-end",
+        huffman::Validity::Eos { at_end: false } => "EOS-symbol-inside",
+        huffman::Validity::BadPadding => "padding-not-EOS-prefix",
+    }
 }
 
 #[derive(Debug, Clone, PartialEq, Eq)]
@@ -146,7 +157,10 @@ pub fn str_decode(n: u8, b: &[u8]) -> Result<PStr, StrErr> {
     }
     let payload = &b[li.consumed..li.consumed + len];
     let value = if h {
-        huffman::decode(payload).ok_or(StrErr::Huffman)?
+        match huffman::decode(payload) {
+            Some(v) => v,
+            None => return Err(StrErr::Huffman(huffman_invalid_reason(payload))),
+        }
     } else {
         payload.to_vec()
     };
@@ -188,7 +202,7 @@ pub enum Line {
 #[derive(Debug, Clone, PartialEq, Eq)]
 pub enum ParseErr {
     Truncated,
-    Huffman,
+    Huffman(&'static str),
     LenTooBig,
 }
 
@@ -196,7 +210,7 @@ impl From<StrErr> for ParseErr {
     fn from(e: StrErr) -> Self {
         match e {
             StrErr::Truncated => ParseErr::Truncated,
-            StrErr::Huffman => ParseErr::Huffman,
+            StrErr::Huffman(w) => ParseErr::Huffman(w),
             StrErr::LenTooBig => ParseErr::LenTooBig,
         }
     }
@@ -317,7 +331,7 @@ pub enum Stateless {
     /// valid static/literal-only section with RIC 0, Base 0: must be accepted with these fields
     MustAccept(Vec<Field>),
     /// invalid, or needs the dynamic table: must be rejected (with a non-size error)
-    MustReject(&'static str),
+    MustReject(String),
     /// RFC leaves it open (e.g. RIC 0 with a positive Base, very long integer encodings):
     /// if accepted the fields must equal these
     DontCare(Vec<Field>, &'static str),
@@ -327,31 +341,31 @@ pub enum Stateless {
 pub fn judge_stateless(b: &[u8]) -> Stateless {
     let s = match parse_section(b) {
         Ok(s) => s,
-        Err(ParseErr::Truncated) => return Stateless::MustReject("truncated integer or string"),
-        Err(ParseErr::Huffman) => return Stateless::MustReject("invalid Huffman string"),
-        Err(ParseErr::LenTooBig) => return Stateless::MustReject("oversized string length"),
+        Err(ParseErr::Truncated) => return Stateless::MustReject("truncated".into()),
+        Err(ParseErr::Huffman(w)) => return Stateless::MustReject(format!("huffman:{}", w)),
+        Err(ParseErr::LenTooBig) => return Stateless::MustReject("oversized-string-length".into()),
     };
     if s.enc_ric != 0 {
         // RFC 9204 §4.5.1.1: with MaxEntries = 0 no conformant encoder produces a non-zero value
-        return Stateless::MustReject("non-zero Required Insert Count without dynamic table");
+        return Stateless::MustReject("ric!=0".into());
     }
     if s.sign {
         // §4.5.1.2: Sign bit 1 invalid when Required Insert Count <= Delta Base
-        return Stateless::MustReject("negative Base");
+        return Stateless::MustReject("base<0".into());
     }
     let mut fields = Vec::new();
     for l in &s.lines {
         match l {
             Line::IndexedStatic(i) => {
                 if *i >= 99 {
-                    return Stateless::MustReject("static index out of range");
+                    return Stateless::MustReject("static-index>=99".into());
                 }
                 let (n, v) = STATIC_TABLE[*i as usize];
                 fields.push((n.as_bytes().to_vec(), v.as_bytes().to_vec()));
             }
             Line::LitNameRefStatic { idx, value } => {
                 if *idx >= 99 {
-                    return Stateless::MustReject("static name index out of range");
+                    return Stateless::MustReject("static-name-index>=99".into());
                 }
                 let (n, _) = STATIC_TABLE[*idx as usize];
                 fields.push((n.as_bytes().to_vec(), value.clone()));
@@ -361,7 +375,7 @@ pub fn judge_stateless(b: &[u8]) -> Stateless {
             | Line::PostBaseIndexed(_)
             | Line::LitNameRefDynamic { .. }
             | Line::LitPostBaseNameRef { .. } => {
-                return Stateless::MustReject("dynamic table reference")
+                return Stateless::MustReject("dynamic-reference".into())
             }
         }
     }
